@@ -57,6 +57,19 @@ Proof. exact TreeP.copy_walk. Qed.
 Theorem C18_tree_source_as_modelled : TieTree.tree_source_as_modelled.
 Proof. exact TieTree.tree_source_as_modelled_holds. Qed.
 
+Example C18_tree_copy_nonvacuous :
+  let add v := fun o : option Z => match o with Some c => c + v | None => v end in
+  let t := fst (Tree.tremove 3 [97; 98] (TreeP.built [([97; 98; 99], add 1); ([97; 98], add 2); ([], add 4)])) in
+  TreeP.wf_tree t
+  /\ snd (Tree.twalk 3 (fun _ _ => (true, true)) t) = [([], 4); ([97; 98; 99], 1)]                       (* the live tree has a removal mark *)
+  /\ snd (Tree.twalk 3 (fun _ _ => (true, true)) (Tree.tcopy t)) = [([97; 98], 2); ([], 4); ([97; 98; 99], 1)].  (* the copy has none *)
+Proof.
+  split; [|vm_compute; split; reflexivity].
+  pose proof (@TreeP.tremove_spec Z 3 [97; 98] _ (TreeP.built_wf [([97; 98; 99], fun o : option Z => match o with Some c => c + 1 | None => 1 end);
+    ([97; 98], fun o : option Z => match o with Some c => c + 2 | None => 2 end); ([], fun o : option Z => match o with Some c => c + 4 | None => 4 end)])) as S.
+  destruct (Tree.tremove 3 [97; 98] _) as [t' o]. exact (proj1 S).
+Qed.
+
 Print Assumptions C18_snapshot_stable.
 Print Assumptions C18_scan_reflects_the_prefix_at_its_start.
 Print Assumptions C18_memstore_copied_with_file_store.
